@@ -46,7 +46,11 @@ def m_unpack(it, fmt, data):
             raise PyRaise(e)
     if fmt in FORMATS and isinstance(data, SBytes):
         _axioms()
-        return (SInt(FORMATS[fmt][1](data.t)),)
+        if z3.is_app(data.t) and data.t.decl().eq(FORMATS[fmt][0]):
+            return (SInt(data.t.arg(0)),)  # unpack(pack(n)) == n, applied syntactically (pack already required 0 <= n < 2**32)
+        r = FORMATS[fmt][1](data.t)
+        it.assume(z3.And(r >= 0, r < 2**32))
+        return (SInt(r),)
     raise Unsupported(f"struct.unpack({fmt!r}) of symbolic data")
 
 
